@@ -21,6 +21,7 @@ open Mjw Mjw.Gen.Solver Mjw.Gen.Math
 /-! ### literals and safe_div -/
 
 theorem half_lit : (Scalar.lit 5 (-1) : ℝ) = 1 / 2 := by simp only [slit]; norm_num
+theorem neghalf_lit : (Scalar.lit (-5) (-1) : ℝ) = -(1 / 2) := by simp only [slit]; norm_num
 theorem lit0 : (Scalar.lit 0 0 : ℝ) = 0 := by simp only [slit]; norm_num
 theorem lit1 : (Scalar.lit 1 0 : ℝ) = 1 := by simp only [slit]; norm_num
 theorem lit2 : (Scalar.lit 2 0 : ℝ) = 2 := by simp only [slit]; norm_num
@@ -62,6 +63,23 @@ theorem eval_limit (jaref D f : ℝ) (e e0 : Int) (j0 D0 mu u TT : ℝ) :
   simp only [_eval_constraint, hmul, hneg, sge, half_lit, lit0, lit1,
     Bool.false_eq_true, if_false, if_true]
   split_ifs <;> (congr 1; all_goals ring)
+
+/-- closed form of the line-search friction-loss cost -/
+theorem eval_frictionloss_cost (x f rf d : ℝ) :
+    _eval_frictionloss_cost x f rf d
+      = if -rf < x ∧ x < rf then 1 / 2 * d * x * x
+        else if x ≤ -rf then f * (-(1 / 2) * rf - x) else f * (-(1 / 2) * rf + x) := by
+  simp only [_eval_frictionloss_cost, hadd, hsub, hmul, hneg, slt, sle, half_lit, neghalf_lit,
+    Bool.and_eq_true]
+
+/-- closed form of the line-search friction-loss point (cost, gradient, hessian) -/
+theorem eval_frictionloss_pt (x f rf jv d : ℝ) :
+    _eval_frictionloss_pt x f rf jv d
+      = if -rf < x ∧ x < rf then ⟨1 / 2 * d * x * x, jv * d * x, jv * (jv * d)⟩
+        else if x ≤ -rf then ⟨f * (-(1 / 2) * rf - x), -f * jv, 0⟩
+        else ⟨f * (-(1 / 2) * rf + x), f * jv, 0⟩ := by
+  simp only [_eval_frictionloss_pt, hadd, hsub, hmul, hneg, slt, sle, half_lit, neghalf_lit, lit0,
+    Bool.and_eq_true]
 
 /-- the generated `T` (0 when `TT ≤ 0`, else `√TT`) is `√TT` for `TT ≥ 0`; only `√0 = 0` is used. -/
 theorem genT_eq (TT : ℝ) (h : 0 ≤ TT) : (if TT ≤ 0 then (0:ℝ) else Real.sqrt TT) = Real.sqrt TT := by
@@ -153,6 +171,23 @@ theorem middle_tangent (N T D0 mu u : ℝ) (hT : T ≠ 0) :
   simp only [_eval_elliptic_middle, hadd, hsub, hmul, hneg, half_lit, lit0, lit1, if_true,
     Bool.false_eq_true, if_false, safe_div_ne _ _ hT]
 
+/-- the cost returned by `_eval_elliptic_middle` is non-negative for D0 ≥ 0 (any mu, also mu = 0 where
+    `safe_div` substitutes MJ_MINVAL). -/
+theorem middle_cost_nonneg (N T D0 mu u : ℝ) (b : Bool) (hD0 : 0 ≤ D0) :
+    0 ≤ (_eval_elliptic_middle N T D0 mu u b).c1 := by
+  have hd : 0 ≤ safe_div_F_F D0 (mu * mu * (1 + mu * mu)) :=
+    safe_div_nonneg _ _ hD0
+      (mul_nonneg (mul_self_nonneg mu) (by nlinarith [mul_self_nonneg mu]))
+  cases b
+  · simp only [_eval_elliptic_middle, lit0, Bool.false_eq_true, if_false, le_refl]
+  · simp only [_eval_elliptic_middle, hadd, hsub, hmul, half_lit, lit1, if_true]
+    have := mul_nonneg hd (mul_self_nonneg (N - mu * T))
+    nlinarith
+
+/-- √4 = 2 (for the concrete examples) -/
+theorem sqrt4 : Real.sqrt 4 = 2 := by
+  rw [show (4:ℝ) = 2 ^ 2 by norm_num]; exact Real.sqrt_sq (by norm_num)
+
 /-! ### calculus -/
 
 /-- a function that agrees with `g` on a neighbourhood of `x` has `g`'s derivative at `x` -/
@@ -188,6 +223,12 @@ theorem hasDerivAt_glue_nhds {f g h : ℝ → ℝ} {x f' : ℝ} {s : Set ℝ} (h
   by_cases hyx : y ≤ x
   · rw [if_pos hyx]; exact hl y hy hyx
   · rw [if_neg hyx]; exact hr y hy (le_of_lt (not_le.mp hyx))
+
+/-- transport a derivative along pointwise equality of functions and equality of derivative values -/
+theorem hasDerivAt_congr {f g : ℝ → ℝ} {f' g' x : ℝ} (h : HasDerivAt g g' x)
+    (hf : ∀ y, f y = g y) (hd : f' = g') : HasDerivAt f f' x := by
+  have : f = g := funext hf
+  rw [this, hd]; exact h
 
 /-- derivative of `j ↦ c * j * j` -/
 theorem hasDerivAt_quad (c x : ℝ) : HasDerivAt (fun j : ℝ => c * j * j) (2 * c * x) x := by
